@@ -83,6 +83,14 @@ def call(I, callee, args, st):
         used("f64::" + m.group(3))
         return True, getattr(D, m.group(3))(args[0])
 
+    if re.search(r"SincInterpolator<T>>::len$", c) and hasattr(I, "ctx") and "sinc_len" in I.ctx:
+        used("dyn SincInterpolator::len -> concrete length of the harness")
+        return True, I.ctx["sinc_len"]
+    m = re.match(r"^std::f(32|64)::<impl f(32|64)>::(floor|ceil|round)$", c)
+    if m:
+        used("f%s::%s" % (m.group(1), m.group(3)))
+        return True, getattr(D, m.group(3))(args[0])
+
     # ---- slices / vectors / iterators
     if re.match(r"^<Vec<.*> as Deref>::deref$", c):
         used("Vec::deref")
